@@ -51,10 +51,23 @@ def check(ctx: Ctx) -> str:
     repo = ctx.repo
     ctx.rule("R4", "template globals: a cached template's globals are updated only in the front mapping of its own ChainMap(d, environment.globals); environment.globals is never written on the load / render path")
     mg = repo.func("environment:Environment.make_globals")
-    r = astq.returns(mg.node)
-    ctx.check(len(r) == 1 and ast.unparse(r[0].value) == "ChainMap(d, self.globals)", "make_globals", "environment:Environment.make_globals", "ChainMap layering", "template globals must be ChainMap(<own dict>, environment.globals) so that updates never reach the environment", mg.loc())
-    s = ast.unparse(mg.node)
-    ctx.check("if d is None:\n        d = {}" in s, "make_globals:fresh", "environment:Environment.make_globals", "fresh front dict", "a template without own globals must get a fresh front dict", mg.loc())
+    r = astq.returns(mg.nnode)
+    # ChainMap(<front>, self.globals) where <front> is the caller's dict, or a new {} when it is None
+    layered = len(r) == 1 and isinstance(r[0].value, ast.Call) and astq.callee(r[0].value) == "ChainMap" and len(r[0].value.args) == 2 and ast.unparse(r[0].value.args[1]) == "self.globals"
+    ctx.check(layered, "make_globals", "environment:Environment.make_globals", "ChainMap layering", "template globals must be ChainMap(<own dict>, environment.globals) so that updates never reach the environment", mg.loc())
+    fresh = False
+    if layered:
+        front = r[0].value.args[0]  # type: ignore[union-attr]
+        fv = ast.unparse(front)
+        asg = [(ast.unparse(a.value), astq.guard_atoms(mg.nnode, a)) for a in ast.walk(mg.nnode) if isinstance(a, ast.Assign) and ast.unparse(a.targets[0]) == fv]
+        new_when_none = any(v == "{}" and ("d is None", True) in g for v, g in asg)
+        if isinstance(front, ast.IfExp):
+            fresh = ast.unparse(front.test) == "d is None" and ast.unparse(front.body) == "{}" and ast.unparse(front.orelse) == "d"
+        elif fv == "d":
+            fresh = new_when_none and all(v == "{}" for v, g in asg)
+        else:
+            fresh = new_when_none and any(v == "d" and ("d is None", False) in g for v, g in asg) and len(asg) == 2
+    ctx.check(fresh, "make_globals:fresh", "environment:Environment.make_globals", "fresh front dict", "a template without own globals must get a fresh front dict", mg.loc())
     lt = repo.func("environment:Environment._load_template")
     ups = [c for c in astq.calls(lt.node) if astq.callee(c).endswith(".update")]
     ctx.check(len(ups) == 1 and astq.callee(ups[0]) == "template.globals.update", "load:globals-update", "environment:Environment._load_template", "globals update target", "only the cached template's own globals (ChainMap front) may be updated", lt.loc())
